@@ -150,17 +150,33 @@ structure Entry where
 
 def nan : Float := 0.0 / 0.0
 
-def closeF (a b : Float) : Bool :=
-  a == b || decide ((a - b).abs ≤ 1e-11 * (if a.abs < b.abs then b.abs else a.abs))
+/-- relative distance of two floats (0 when equal, also for equal infinities / both NaN is NOT equal) -/
+def relDist (a b : Float) : Float :=
+  if a == b then 0.0 else (a - b).abs / (if a.abs < b.abs then b.abs else a.abs)
 
-def closeL : List Float → List Float → Bool
-  | [], [] => true
-  | a :: as, b :: bs => closeF a b && closeL as bs
-  | _, _ => false
+/-- largest component-wise relative distance; `none` when the shapes differ -/
+def distL : List Float → List Float → Option Float
+  | [], [] => some 0.0
+  | a :: as, b :: bs => (distL as bs).map fun d => let e := relDist a b; if d < e then e else d
+  | _, _ => none
 
+/-- DESIGN §2.2: oracle entries are matched by routine name and arguments within the §6 tolerance
+    (1e-11 relative); among several admissible entries (e.g. successive iterates of a root finder)
+    the CLOSEST one answers; a question the code never asked answers NaN -/
 def lookup (tbl : List Entry) (name : String) (args : List Float) (n : Nat) : List Float :=
-  match tbl.find? (fun e => e.name == name && closeL e.args args) with
-  | some e => e.res
+  let best := tbl.foldl (fun (acc : Option (Float × List Float)) e =>
+    if e.name == name then
+      match distL e.args args with
+      | some d =>
+          if d ≤ 1e-11 then
+            match acc with
+            | some (d0, _) => if d < d0 then some (d, e.res) else acc
+            | none => some (d, e.res)
+          else acc
+      | none => acc
+    else acc) none
+  match best with
+  | some (_, r) => r
   | none => List.replicate n nan
 
 def tableLib (tbl : List Entry) : Lib Float :=
